@@ -25,8 +25,36 @@ func typeChecks(src string) bool {
 		return false
 	}
 	conf := types.Config{Importer: importer.Default(), Error: func(error) {}}
-	_, err = conf.Check("x", fset, []*ast.File{f}, nil)
-	return err == nil
+	info := &types.Info{Uses: map[*ast.Ident]types.Object{}}
+	pkg, err := conf.Check("x", fset, []*ast.File{f}, info)
+	return err == nil && !hasClosure(f, info, pkg)
+}
+
+// hasClosure reports a function literal that mentions a variable of an
+// enclosing function: a reduction step must not turn a literal into a closure.
+func hasClosure(f *ast.File, info *types.Info, pkg *types.Package) (found bool) {
+	ast.Inspect(f, func(n ast.Node) bool {
+		lit, ok := n.(*ast.FuncLit)
+		if !ok {
+			return true
+		}
+		ast.Inspect(lit, func(m ast.Node) bool {
+			id, ok := m.(*ast.Ident)
+			if !ok {
+				return true
+			}
+			o, ok := info.Uses[id].(*types.Var)
+			if !ok || o.IsField() || o.Parent() == pkg.Scope() {
+				return true
+			}
+			if o.Pos() < lit.Pos() || o.Pos() > lit.End() {
+				found = true
+			}
+			return true
+		})
+		return true
+	})
+	return
 }
 
 func compileErr(src string) (s string) {
